@@ -41,6 +41,7 @@ class C06(PoolScenario):
     ops = {"new": 1, "fill": 9, "fillnumpy": 3, "add": 5, "mul": 2.5, "zero": 1.5, "copy": 3, "read": 2, "scribble": 0.7,
            "iadd": 2.5, "drop": 0.3, "ship": 1.5, "immutable": 1.0}
     wires = ["pickle", "json", "jsonstr", "file"]
+    fill_reloaded_too = True
     rule = ("one run = one history over a pool in which every result of a pure operation (a+b, a*f, f*a, zero, copy, "
             "toJson, ==, hash, repr, accessors) joins the pool and both results and sources keep being mutated (fill, "
             "fill.numpy, +=) in seeded interleavings; profile 'defaults' builds trees that rely on default arguments. "
@@ -114,7 +115,8 @@ class C06(PoolScenario):
             # projections of whatever two-dimensional histogram is around, later fills of projection and source
             for i in range(s.randint(1, 4)):
                 nh += 1
-                extra.append({"op": "project", "obj": s.randint(0, 12), "which": s.pick(["x", "y", "y"]), "out": nh, "actor": s.pick(self.owners), "t": 2000 + i})
+                extra.append({"op": "project", "obj": s.randint(0, 12), "which": s.pick(["x", "y", "y", "histogram", "histogram"]), "out": nh,
+                              "actor": s.pick(self.owners), "t": 2000 + i})
             for i in range(s.randint(1, 6)):
                 extra.append({"op": "fillnumpy", "obj": 1001 + s.randrange(max(1, nh - 1000)), "rows": [s.randrange(n) for _ in range(s.randint(1, 4))], "weights": "one",
                               "box": "frame", "actor": s.pick(self.owners), "t": 3000 + i, "any_tree": True})
@@ -146,7 +148,7 @@ class C06(PoolScenario):
             if not hs:
                 return None, set()
             src = w.heap[hs[st["obj"] % len(hs)]]
-            name = "project_on_" + st["which"]
+            name = "histogram" if st["which"] == "histogram" else "project_on_" + st["which"]
             def offers(n_):
                 # the projections are mix-in methods of the classes specialize() swaps in (Select forwards unknown
                 # attributes to its cut and answers KeyError for the rest: not an accessor)
